@@ -984,7 +984,42 @@ def run(ctx):
         if opt_keys is not None:
             break
     if opt_keys is None:
+        # loop form: `for option in ("raise_warning", ...): value = getattr(check, option); ...[option] = value`
+        for g_ in same_module_helpers(ix, pc):
+            for lp in [n for n in walk_no_nested(g_.node) if isinstance(n, ast.For) and isinstance(n.target, ast.Name)]:
+                it = lp.iter
+                if isinstance(it, ast.Name):
+                    it = g_.module.assigns.get(it.id, it)
+                if isinstance(it, (ast.Tuple, ast.List)) and it.elts and all(isinstance(e, ast.Constant) and isinstance(e.value, str) for e in it.elts):
+                    gets = [c for c in ast.walk(lp) if isinstance(c, ast.Call) and isinstance(c.func, ast.Name) and c.func.id == "getattr" and len(c.args) >= 2
+                            and isinstance(c.args[1], ast.Name) and c.args[1].id == lp.target.id]
+                    names_ = [e.value for e in it.elts]
+                    if gets and {"ignore_na", "raise_warning", "n_failure_cases"} & set(names_):
+                        opt_keys = {k: ast.Attribute(value=gets[0].args[0], attr=k, ctx=ast.Load()) for k in names_}
+    if opt_keys is None:
         raise AnalysisError("parse_checks: check options dict not found")
+    # whatever is recorded for one check is computed from that check alone: a mutable local that the loop over the checks
+    # writes *and* reads, but never re-creates, carries the values of the previous check into the next one
+    for lp in [n for n in walk_no_nested(pc.node) if isinstance(n, ast.For) and isinstance(n.iter, ast.Name) and n.iter.id in pc.params]:
+        returned = {x.id for r in walk_no_nested(pc.node) if isinstance(r, ast.Return) and r.value is not None for x in ast.walk(r.value) if isinstance(x, ast.Name)}
+        body_nodes = [x for b in lp.body for x in ast.walk(b)]
+        assigned_in = {t.id for x in body_nodes if isinstance(x, ast.Assign) for t in x.targets if isinstance(t, ast.Name)}
+        written = {}
+        for x in body_nodes:
+            if isinstance(x, ast.Assign):
+                for t in x.targets:
+                    if isinstance(t, ast.Subscript) and isinstance(t.value, ast.Name):
+                        written.setdefault(t.value.id, x)
+        for d_, site in sorted(written.items()):
+            if d_ in assigned_in or d_ in returned:
+                continue
+            reads = [x for x in body_nodes if isinstance(x, ast.Name) and x.id == d_ and isinstance(x.ctx, ast.Load)
+                     and not (isinstance(getattr(x, "_parent", None), ast.Subscript) and isinstance(x._parent.ctx, ast.Store))]
+            stale = bool(reads)
+            ctx.ob("R5", pc, f"parse_checks: `{d_}` written per check is not read back across checks", not stale,
+                   "write-only inside the loop" if not stale else
+                   f"`{d_}` is created once before the loop over the checks, filled conditionally and read for every check: an option set on an earlier check "
+                   "(n_failure_cases=1) is written for every later check of the component as well, and the re-read schema reports differently", pc.loc(site))
     check_init = ix.cls("pandera/api/checks.py::Check").lookup("__init__")
     for k, v in sorted(opt_keys.items()):
         ok = k in check_init.params and isinstance(v, ast.Attribute) and v.attr == k
